@@ -20,11 +20,11 @@ import (
 
 // adv is what the client really advertised: the transport parameters of the observed ClientHello, parsed by refwire.
 type adv struct {
-	raw                                     []refwire.TransportParameter
-	maxData, bidiLocal, bidiRemote, uni     uint64
+	raw                                      []refwire.TransportParameter
+	maxData, bidiLocal, bidiRemote, uni      uint64
 	streamsBidi, streamsUni, cidLimit, dgram uint64
-	idle                                    time.Duration
-	hasIdle, hasCID, hasDgram               bool
+	idle                                     time.Duration
+	hasIdle, hasCID, hasDgram                bool
 }
 
 func (a adv) window(typ string) uint64 {
@@ -105,6 +105,7 @@ func (e *env) tap(dir sim.Dir, rec *sim.Record) {
 	}
 }
 
+// dumpFrames prints the 1-RTT frames of both directions (development aid, VERIF_C12_DEBUG).
 func (e *env) dumpFrames() {
 	for _, d := range []string{"s2c", "c2s"} {
 		e.frames(d, func(rec *sim.Record, p *sim.Packet, f *refwire.Frame) {
@@ -741,13 +742,7 @@ func (e *env) transfer(what string, plan []planned, extra uint64) *vf.Verdict {
 	case r := <-boundary:
 		if r.err != nil {
 			if os.Getenv("VERIF_C12_DEBUG") != "" {
-				for _, d := range []string{"s2c", "c2s"} {
-					e.frames(d, func(rec *sim.Record, p *sim.Packet, f *refwire.Frame) {
-						if p.Kind == "1rtt" && f.Name != refwire.NameAck && f.Name != refwire.NamePadding {
-							fmt.Printf("%s #%d t=%v pn=%d %s stream=%d off=%d len=%d fin=%v max=%d\n", d, rec.Seq, rec.T, p.PN, f.Name, f.StreamID, f.Offset, len(f.Data), f.Fin, f.Max)
-						}
-					})
-				}
+				e.dumpFrames()
 			}
 			if v := e.alive(what + ": while the peer was " + r.phase + " and the client application read nothing"); v != nil {
 				return v
@@ -756,13 +751,7 @@ func (e *env) transfer(what string, plan []planned, extra uint64) *vf.Verdict {
 		}
 	case <-time.After(3600 * time.Second):
 		if os.Getenv("VERIF_C12_DEBUG") != "" {
-			for _, d := range []string{"s2c", "c2s"} {
-				e.frames(d, func(rec *sim.Record, p *sim.Packet, f *refwire.Frame) {
-					if p.Kind == "1rtt" && f.Name != refwire.NameAck && f.Name != refwire.NamePadding {
-						fmt.Printf("%s #%d t=%v pn=%d %s stream=%d off=%d len=%d fin=%v max=%d\n", d, rec.Seq, rec.T, p.PN, f.Name, f.StreamID, f.Offset, len(f.Data), f.Fin, f.Max)
-					}
-				})
-			}
+			e.dumpFrames()
 		}
 		if v := e.alive(what); v != nil {
 			return v
@@ -861,6 +850,12 @@ func (e *env) streamAvailable(typ string, already int) bool {
 	return true
 }
 
+// extra bounds the bytes written beyond the boundary: they flow at one window per round trip at worst, and a
+// window of a few bytes would otherwise cost hundreds of thousands of round trips.
+func (e *env) extra(window uint64) uint64 {
+	return min(uint64(e.sc.Extra), 256*max(window, 1))
+}
+
 func (e *env) scenStream(u *vf.Unit) result {
 	typ := e.sc.Type
 	w := e.adv.window(typ)
@@ -874,7 +869,7 @@ func (e *env) scenStream(u *vf.Unit) result {
 		return result{skip: "too-big"}
 	}
 	what := fmt.Sprintf("stream window %s (advertised %d, initial_max_data %d)", typ, w, e.adv.maxData)
-	if v := e.transfer(what, []planned{{typ, target, e.c.Seed}}, uint64(e.sc.Extra)); v != nil {
+	if v := e.transfer(what, []planned{{typ, target, e.c.Seed}}, e.extra(target)); v != nil {
 		return one(v)
 	}
 	rel := relation(w, e.c.Cfg.effStreamWin())
@@ -923,7 +918,7 @@ func (e *env) scenConn(u *vf.Unit) result {
 	}
 	sum := e.adv.maxData - remaining
 	what := fmt.Sprintf("connection window (initial_max_data %d; %d streams carrying %d bytes)", e.adv.maxData, len(plan), sum)
-	if v := e.transfer(what, plan, uint64(e.sc.Extra)); v != nil {
+	if v := e.transfer(what, plan, e.extra(min(e.adv.window(plan[len(plan)-1].typ), e.adv.maxData))); v != nil {
 		return one(v)
 	}
 	rel := relation(e.adv.maxData, e.c.Cfg.effConnWin())
